@@ -2,6 +2,7 @@
 import itertools, json
 import vlib
 from checks.c09 import vlib_corpus
+from specgen import resp_spec
 
 LINES = ["data: 1", "data:2", "data: [1]", 'data: "a"', "data: x", "data:", "data", ": c", "event: e", "id: 3", "", "data: {", 'data: "é"', 'data: "😀"', "data: true", "retry: 5", "da", "data : 1"]
 EOLS = ["\n", "\r\n", "\r"]
@@ -40,14 +41,130 @@ def rand_script(r, b):
     out, i = [], 0
     while i < len(b):
         if r.random() < 0.25:
-            out.append("p")
+            out.append(r.choice(PENDS))
         if r.random() < 0.05:
             out.append([])
         k = r.randint(1, max(1, min(6, len(b) - i)))
         out.append(b[i:i + k]); i += k
     if r.random() < 0.3:
-        out.append("p")
+        out.append(r.choice(PENDS))
     return out
+
+
+# ---- long runs of events that never reach the consumer (heartbeats), between real events -------
+PENDS = ["p", "p", "w"]          # "p": Pending, woken after the call; "w": Pending, woken inside the call
+HEARTBEATS = ["data:\n\n", "data\n\n", "data: \n\n"]                      # the three spellings of an empty-data event
+NOISE = [": keep-alive\n\n", ": c\n", "id: 7\n\n", "event: ping\n\n", "retry: 100\n\n", "id\n\n", "event: e\nid: 1\n\n", "\n", "retry: x\n\n", ":\n\n"]
+REALS = ["data: 1\n\n", 'data: "a"\n\n', "data: x\n\n", "data: [1]\n\n", "event: e\ndata: 2\n\n", "data: {\n\n", "id: 9\ndata: true\n\n", "data: 3\ndata: 4\n\n"]
+RUN_LENGTHS = [0, 1, 5, 31, 32, 33, 63, 64, 65, 100, 200]
+
+
+def hb_events(r, n, spelling):
+    """n heartbeats: spelling 0..2 = one spelling, 3 = mixed, 4 = mixed with comment / id / event / retry-only events in between"""
+    ev = []
+    for _ in range(n):
+        ev.append(HEARTBEATS[spelling] if spelling < 3 else r.choice(HEARTBEATS))
+        if spelling == 4 and r.random() < 0.3:
+            ev.append(r.choice(NOISE))
+    return ev
+
+
+def hb_stream(r, n, spelling):
+    """list of events (strings): real, run of n, real, second (short) run or noise only, real"""
+    ev = [r.choice(REALS)] + hb_events(r, n, spelling) + [r.choice(REALS)]
+    m = r.choice([0, 0, 1, 3, n, r.randint(0, 40)])
+    ev += (hb_events(r, m, r.randint(0, 4)) if r.random() < 0.7 else [r.choice(NOISE) for _ in range(m)]) + [r.choice(REALS)]
+    eol = r.choice(["\n", "\n", "\n", "\r\n", "\r"])
+    return [e.replace("\n", eol) for e in ev]
+
+
+def hb_scripts(r, ev):
+    """one chunk / every byte / one chunk per event back to back / Pending inside the run / random chunking and schedule"""
+    bs = [list(e.encode()) for e in ev]
+    flat = [b for e in bs for b in e]
+    yield [flat]
+    yield [[b] for b in flat]
+    yield [e for e in bs]
+    j = r.randint(1, max(1, len(bs) - 1))
+    yield [[b for e in bs[:j] for b in e], r.choice(PENDS), [b for e in bs[j:] for b in e]]
+    out = []
+    i = 0
+    while i < len(bs):
+        k = r.choice([1, 1, 2, 7, 31, 32, 33, 50])
+        out.append([b for e in bs[i:i + k] for b in e]); i += k
+        if r.random() < 0.35:
+            out.append(r.choice(PENDS))
+    yield out
+    yield rand_script(r, flat)
+
+
+def hb_cases(ctx):
+    r = ctx.rng
+    out = []
+    lengths = (RUN_LENGTHS + [r.randint(2, 199) for _ in range(3)]) if ctx.quick else list(range(0, 201))
+    for n in lengths:
+        for spelling in range(5):
+            if ctx.quick and spelling >= 3 and n not in (32, 33, 200) and r.random() < 0.5:
+                continue
+            ev = hb_stream(r, n, spelling)
+            for sc in hb_scripts(r, ev):
+                out.append({"op": "sse.run", "in": {"script": sc}})
+    return out
+
+
+# ---- how the stream is obtained: `text/event-stream` next to other media types under one status ----
+STREAM_KINDS = ["ref:Pet", "string", "integer", "ref:Err"]
+OTHER_MEDIA = {
+    "json": [["application/json", "ref:Pet"], ["application/problem+json", "ref:Err"], ["application/vnd.api+json", "integer"], ["application/json", "string"]],
+    # text-like types that sort BEFORE `text/event-stream` in the content map ...
+    "text<": [["application/x-ndjson", "string"], ["application/x-ndjson", "ref:Pet"], ["application/yaml", "string"], ["application/jsonl", "string"],
+              ["text/csv", "string"], ["text/csv", "ref:Pet"], ["text/css", "string"], ["text/calendar", "integer"]],
+    # ... and after it
+    "text>": [["text/plain", "string"], ["text/plain", "integer"], ["text/html", "string"], ["text/markdown", "string"], ["text/x-log", "ref:Pet"]],
+    "xml": [["application/xml", "ref:Err"], ["text/xml", "ref:Err"], ["application/soap+xml", "ref:Err"]],
+    "binary": [["application/octet-stream", None], ["application/octet-stream", "string"], ["image/png", None], ["application/pdf", None], ["audio/mpeg", None]],
+    "form": [["application/x-www-form-urlencoded", "ref:Pet"]],
+}
+OBTAIN_KEYS = [["200"], ["200", "default"], ["2XX"], ["200", "404"], ["201", "2XX", "default"], ["default"], ["200", "2XX", "4XX", "default"]]
+
+
+def mk_obtain(responses):
+    return {"op": "sse.obtain", "in": {"responses": responses}}
+
+
+def obtain_cases(ctx):
+    r = ctx.rng
+    out = []
+    cats = list(OTHER_MEDIA)
+    # every single other media type, and every pair of categories, next to the event stream under "200"
+    for c in cats:
+        for m in OTHER_MEDIA[c]:
+            out.append(mk_obtain([["200", [m, ["text/event-stream", "ref:Pet"]]]]))
+    for a, b in itertools.combinations(cats, 2):
+        for _ in range(1 if ctx.quick else 4):
+            out.append(mk_obtain([["200", [r.choice(OTHER_MEDIA[a]), r.choice(OTHER_MEDIA[b]), ["text/event-stream", r.choice(STREAM_KINDS)]]]]))
+    for _ in range(200 if ctx.quick else 2500):
+        keys = r.choice(OBTAIN_KEYS)
+        resp = []
+        for k in keys:
+            lay, seen = [], set()
+            for _ in range(r.randint(0, 4)):
+                m = r.choice(OTHER_MEDIA[r.choice(cats)])
+                if m[0] not in seen:
+                    seen.add(m[0]); lay.append(m)
+            if r.random() < 0.75 or k == keys[0]:
+                lay.insert(r.randint(0, len(lay)), ["text/event-stream", r.choice(STREAM_KINDS)])
+            resp.append([k, lay])
+        out.append(mk_obtain(resp))
+    return out
+
+
+def prepare(case):
+    """derived fields (the OpenAPI document) are rebuilt from the primary data at evaluation time"""
+    if case["op"] != "sse.obtain":
+        return case
+    rs = case["in"]["responses"]
+    return {"op": case["op"], "in": {"responses": rs, "spec": resp_spec(rs), "mode": "client-mod", "cfg": {}, "opreq": "OpRequest", "openum": "OpResponse"}}
 
 
 def cases(ctx):
@@ -64,7 +181,7 @@ def cases(ctx):
     for _ in range(1500 if ctx.quick else 5000):
         b = rand_stream(r, 60)
         out.append({"op": "sse.run", "in": {"script": rand_script(r, b)}})
-    return out
+    return out + hb_cases(ctx)
 
 
 def run(ctx):
@@ -73,15 +190,26 @@ def run(ctx):
         ctx.audit("Oas3Model.Props.C20")
         if not ctx.quick:
             ctx.leanchecker("Oas3Model.Props.C20")
+    ctx.prepare = prepare
     if driver_ok and ctx.build_harness([], bins=("sse",)):
-        allc = vlib_corpus(ctx) + cases(ctx)
-        B = 5000
+        bins = dict(ctx.bins)
+        corpus = vlib_corpus(ctx)
+        allc = [c for c in corpus if c["op"] == "sse.run"] + cases(ctx)
+        B = 2500
         for i in range(0, len(allc), B):
             ctx.classify(ctx.evaluate(allc[i:i + B], bin="sse"), tie="K")
             if len(ctx.violations) >= 3:
                 break
+        # tie E: the client is generated in-process and its parse_response is asked for the event stream
+        if len(ctx.violations) < 3 and ctx.build_harness(["k_gen"]):
+            ctx.bins.update(bins)
+            oc = [c for c in corpus if c["op"] == "sse.obtain"] + obtain_cases(ctx)
+            for i in range(0, len(oc), 400):
+                ctx.classify(ctx.evaluate(oc[i:i + 400], tie="E"), tie="E")
+                if len(ctx.violations) >= 3:
+                    break
     return ctx.finish(
         checker_cmd="lake build Oas3Model.Props.C20 && #print axioms on every theorem" + ("" if ctx.quick else " && leanchecker"),
-        trusted_base=vlib.TRUSTED_BASE + ["eventsource-stream 0.2.3 + nom streaming combinators: modelled in Sem/Sse.lean, validated by running the real crate under the real wrapper", "reqwest body plumbing (bytes_stream) passes chunks and Pending through unchanged (validated by the same runs)", "payload decoder dec is a parameter of every theorem; the driver instantiates it with Lean's JSON parser on a payload alphabet where it agrees with serde_json"],
-        rule="real EventStream<serde_json::Value> over a scripted reqwest body, polled by hand: all 2^(n-1) chunkings of 12 (quick) / 40 (thorough) base streams of <=10 / <=14 bytes incl. CRLF/CR/LF, comments, multi-line and empty data, malformed JSON, multi-byte text, + random longer streams with random chunkings and Pending interleavings, BOM and invalid bytes; non-trivial = the stream holds >=1 event or is cut into >=2 chunks; distinct by script",
-        assumptions=["the transport yields the scripted chunks in order", "JSON payloads are drawn from an alphabet on which Lean's parser and serde_json agree"])
+        trusted_base=vlib.TRUSTED_BASE + ["eventsource-stream 0.2.3 + nom streaming combinators: modelled in Sem/Sse.lean, validated by running the real crate under the real wrapper", "reqwest body plumbing (bytes_stream) passes chunks, Pending and the task's waker through unchanged (validated by the same runs: a kept waker that does not reach the task shows as a stall)", "the harness executor (harness/src/sse.rs): counting waker, re-poll after Pending only if the counter moved; a transport that answered Pending is assumed to wake the waker it was given (the scripted one does)", "payload decoder dec is a parameter of every theorem; the driver instantiates it with Lean's JSON parser on a payload alphabet where it agrees with serde_json", "sse.obtain: syn-based extraction of the emitted parse_response chain (harness/src/facts.rs) and the chain semantics of Model/Responses.lean (evalChain) stand for the run-time behaviour of the generated client; the emitted code is not compiled or executed here"],
+        rule="real EventStream<serde_json::Value> over a scripted reqwest body, driven by an executor that re-polls only after a wake-up: all 2^(n-1) chunkings of 12 (quick) / 40 (thorough) base streams of <=10 / <=14 bytes incl. CRLF/CR/LF, comments, multi-line and empty data, malformed JSON, multi-byte text, + random longer streams with random chunkings and both kinds of Pending (woken later / woken at once), BOM and invalid bytes, + runs of 0..200 empty-data events in 5 spellings between real events under 6 deliveries (one chunk, every byte, per event, Pending inside the run, blocks with Pendings, random); + (tie E) response sets with text/event-stream next to media types of every category under one status, client generated in-process, emitted parse_response chain judged on both text/event-stream spellings for all 500 status codes; non-trivial = the stream holds >=1 event, or is cut into >=2 chunks, or holds a skipped event / the response set declares a typed event stream; distinct by input hash",
+        assumptions=["the transport yields the scripted chunks in order", "a transport that answers Pending wakes the waker it was given, eventually (fairness of the reactor)", "variant doc comments (`KEY: description`) identify the response key a variant was declared for", "JSON payloads are drawn from an alphabet on which Lean's parser and serde_json agree"])
